@@ -18,14 +18,14 @@ def gen(rng, tier):
     n = 30 if tier == "quick" else 300
     cases = []
     for k in range(n):
-        mode = ["conserve", "conserve_bias", "langevin", "reflect_lo", "reflect_hi", "walls", "generic", "reflect_both"][k % 8]
+        mode = ["conserve", "conserve_bias", "langevin", "reflect_lo", "reflect_hi", "walls", "generic", "reflect_both", "periodic"][k % 9]
         w = rng.choice([0.5, 1.0])
         tol = rng.choice([0.1, 0.2, 0.5]); tau = rng.choice([20.0, 50.0, 200.0]); T = rng.choice([300.0, 500.0])
         dt = rng.choice([0.5, 1.0, 2.0])
-        g = 0.0 if mode in ("conserve", "conserve_bias", "reflect_lo", "reflect_hi", "reflect_both") else rng.choice([0.0, 1.0, 10.0])
+        g = 0.0 if mode in ("conserve", "conserve_bias", "reflect_lo", "reflect_hi", "reflect_both", "periodic") else rng.choice([0.0, 1.0, 10.0])
         if mode == "langevin":
             g = rng.choice([1.0, 5.0])
-        kb = 0.0 if mode in ("conserve", "reflect_lo", "reflect_hi", "reflect_both") else rng.choice([0.5, 2.0])
+        kb = 0.0 if mode in ("conserve", "reflect_lo", "reflect_hi", "reflect_both", "periodic") else rng.choice([0.5, 2.0])
         cb = rng.uniform(-1, 1)
         kw = rng.choice([1.0, 4.0]) if mode in ("walls", "generic") else 0.0
         uw = rng.uniform(0.2, 1.0)
@@ -40,9 +40,12 @@ def gen(rng, tier):
         gam = g * 1.0e-3
         sig = math.sqrt((1.0 - math.exp(-2.0 * gam * dt * float(tsf))) * mext * KB * T) if g != 0.0 else 0.0
         tl = (" timeStepFactor %d\n" % tsf) if tsf > 1 else ""
+        # a periodic variable that is a single component with coefficient -1 (homogeneous, but not "the component itself"): period 4, value -z
+        PER = 4.0 if mode == "periodic" else 0.0
+        PERI = ("  period %s\n  wrapAround 0.0\n  componentCoeff -1.0\n" % num(PER)) if PER else ""
         conf = ("colvar {\n name e\n" + tl + " width %s\n lowerBoundary %s\n upperBoundary %s\n extendedLagrangian on\n extendedFluctuation %s\n"
                 " extendedTimeConstant %s\n extendedTemp %s\n extendedLangevinDamping %s\n%s%s outputEnergy on\n outputVelocity on\n"
-                " distanceZ {\n  main { atomNumbers 1 }\n  ref { dummyAtom (0.0, 0.0, 0.0) }\n  axis (0.0, 0.0, 1.0)\n }\n}\n") % (
+                " distanceZ {\n  main { atomNumbers 1 }\n  ref { dummyAtom (0.0, 0.0, 0.0) }\n  axis (0.0, 0.0, 1.0)\n" + PERI + " }\n}\n") % (
             num(w), num(lb), num(ub), num(tol), num(tau), num(T), num(g),
             " reflectingLowerBoundary on\n" if refl_lo else "", " reflectingUpperBoundary on\n" if refl_hi else "")
         bconf = ""
@@ -56,9 +59,9 @@ def gen(rng, tier):
         ckpt_pfx = "/tmp/cv-c17-ck%d" % k
         if ckpt:
             setup = setup + ["m.opt prefix %s" % ckpt_pfx, "m.opt restartfreq 1"]
-        mext_line = "M.ext e 0 k=%s mass=%s dt=%s gamma=%s sigma=%s langevin=%d width=%s rl=%s ru=%s haslo=%d hasup=%d kb=%s cb=%s kw=%s uw=%s tsf=%d" % (
+        mext_line = "M.ext e 0 k=%s mass=%s dt=%s gamma=%s sigma=%s langevin=%d width=%s rl=%s ru=%s haslo=%d hasup=%d kb=%s cb=%s kw=%s uw=%s tsf=%d per=%s coef=%s" % (
             fbits(kext), fbits(mext), fbits(dt), fbits(gam), fbits(sig), 1 if g != 0.0 else 0, fbits(w), fbits(lb), fbits(ub),
-            1 if refl_lo else 0, 1 if refl_hi else 0, fbits(kb), fbits(cb), fbits(kw), fbits(uw), tsf)
+            1 if refl_lo else 0, 1 if refl_hi else 0, fbits(kb), fbits(cb), fbits(kw), fbits(uw), tsf, fbits(PER), fbits(-1.0 if PER else 1.0))
         lines = ["m.new 1"] + setup + [mext_line]
         nsteps = rng.randint(40, 90) if tier == "quick" else rng.randint(40, 200)
         x = rng.uniform(-1.0, 1.0)
@@ -78,7 +81,10 @@ def gen(rng, tier):
             elif hist and hist[-1]["boundary"] == "restart" and rng.rand() < 0.6:
                 boundary = "cont"     # "run 0" after a restart, then the real run: step zero evaluated twice
             if boundary is None:
-                if mode in ("conserve", "conserve_bias"):
+                if mode == "periodic":
+                    # the value sits next to the cut of the period: the extended coordinate oscillates across it
+                    x = 1.7 if t == 0 else 1.93 + rng.uniform(-0.01, 0.01)
+                elif mode in ("conserve", "conserve_bias"):
                     x = x0
                 elif mode in ("reflect_lo", "reflect_hi", "reflect_both"):
                     # drive the coordinate towards the reflecting boundary (both boundaries reflecting: the lower one in the first half of
@@ -87,15 +93,15 @@ def gen(rng, tier):
                     x += (-0.06 if down else 0.06) * (2.0 if mode == "reflect_both" else 0.5) + rng.uniform(-0.01, 0.01)
                 else:
                     x += rng.uniform(-0.05, 0.05)
-                lines.append(pos(0, 0.0, 0.0, x))
+                lines.append(pos(0, 0.0, 0.0, -x if mode == "periodic" else x))
             if boundary == "restart":
                 pfx = "/tmp/cv-c17-%d-%d" % (k, segs); segs += 1
                 if ckpt and since >= 2:
                     # resume from the checkpoint the module wrote by itself during the last step (colvarsRestartFrequency 1): it must describe
                     # the same instant as a state saved after the step
-                    lines += ["M.checkpoint " + ckpt_pfx, "m.new 1"] + setup + [mext_line, "m.load " + ckpt_pfx, pos(0, 0.0, 0.0, x), "m.step"]
+                    lines += ["M.checkpoint " + ckpt_pfx, "m.new 1"] + setup + [mext_line, "m.load " + ckpt_pfx, pos(0, 0.0, 0.0, -x if mode == "periodic" else x), "m.step"]
                 else:
-                    lines += ["m.save " + pfx, "m.new 1"] + setup + [mext_line, "m.load " + pfx, pos(0, 0.0, 0.0, x), "m.step"]
+                    lines += ["m.save " + pfx, "m.new 1"] + setup + [mext_line, "m.load " + pfx, pos(0, 0.0, 0.0, -x if mode == "periodic" else x), "m.step"]
             elif boundary == "cont":
                 lines.append("m.step cont")
             else:
@@ -109,7 +115,7 @@ def gen(rng, tier):
             step_line = len(lines)
             lines.append("e.dump e")
             hist.append({"x": x, "boundary": boundary, "line": step_line})
-        cases.append({"lines": lines, "meta": {"mode": mode, "k": kext, "m": mext, "dt": dt, "gamma": gam, "kb": kb, "cb": cb, "kw": kw, "uw": uw, "tsf": tsf, "T": T,
+        cases.append({"lines": lines, "meta": {"mode": mode, "k": kext, "m": mext, "dt": dt, "gamma": gam, "kb": kb, "cb": cb, "kw": kw, "uw": uw, "tsf": tsf, "T": T, "per": PER,
                                                 "w": w, "lb": lb, "ub": ub, "refl_lo": refl_lo, "refl_hi": refl_hi, "history": hist},
                       "nontrivial": True})
     return cases
@@ -136,6 +142,11 @@ def vals(out, ln, tag):
 def oracle(case, out):
     m = case["meta"]; viol = []
     nf = float(m.get("tsf", 1))
+    PER = m.get("per", 0.0)
+
+    def pd(a, b):
+        d = a - b
+        return d - PER * math.floor(d / PER + 0.5) if PER else d
     k, ms, h = m["k"], m["m"], m["dt"] * nf
     rows = []
     for hh in m["history"]:
@@ -148,7 +159,7 @@ def oracle(case, out):
     for i in range(1, len(rows)):
         b = m["history"][i]["boundary"]
         if b is None:
-            if abs(rows[i]["xr"] - rows[i - 1]["xnext"]) > 1e-9 * max(1.0, abs(rows[i]["xr"])) or abs(rows[i]["vr"] - rows[i - 1]["vnext"]) > 1e-9 * max(1.0, abs(rows[i]["vr"])):
+            if abs(pd(rows[i]["xr"], rows[i - 1]["xnext"])) > 1e-9 * max(1.0, abs(rows[i]["xr"])) or abs(rows[i]["vr"] - rows[i - 1]["vnext"]) > 1e-9 * max(1.0, abs(rows[i]["vr"])):
                 viol.append("step %d: reported value/velocity (%r, %r) are not those left by the previous integration (%r, %r)" % (
                     i, rows[i]["xr"], rows[i]["vr"], rows[i - 1]["xnext"], rows[i - 1]["vnext"]))
                 return viol
@@ -161,7 +172,7 @@ def oracle(case, out):
     # routing: the atoms feel the coupling spring (plus biases that bypass the extended coordinate), nothing else
     for i, r in enumerate(rows):
         x = m["history"][i]["x"]
-        spring = k * (r["xr"] - x)
+        spring = k * pd(r["xr"], x)
         wallf = 0.0
         if m["kw"] and x > m["uw"]:
             wallf = -m["kw"] / (m["w"] ** 2) * (x - m["uw"])
@@ -179,7 +190,7 @@ def oracle(case, out):
     for i, r in enumerate(rows):
         x = m["history"][i]["x"]
         fb = -m["kb"] / (m["w"] ** 2) * (r["xr"] - m["cb"]) if m["kb"] else 0.0
-        fext = fb - k * (r["xr"] - x)
+        fext = fb - k * pd(r["xr"], x)
         v2 = r["vr"] + h * fext / ms
         x1 = r["xr"] + h * v2 / 2.0
         if gam != 0.0:
@@ -193,7 +204,7 @@ def oracle(case, out):
         if (m["refl_lo"] and x2 < m["lb"]) or (m["refl_hi"] and x2 > m["ub"]):
             continue                      # reflection: checked below
         tolx = 1e-9 * max(1.0, abs(x2)); tolv = 1e-9 * max(1.0, abs(v3))
-        if abs(r["xnext"] - x2) > tolx or abs(r["vnext"] - v3) > tolv:
+        if abs(pd(r["xnext"], x2)) > tolx or abs(r["vnext"] - v3) > tolv:
             viol.append("step %d (time-step factor %g, friction %g/fs): the integrator left (x, v) = (%r, %r); the documented recurrence with time step "
                         "%g from the reported (%r, %r), force %r and the drawn number gives (%r, %r)" % (
                             i, nf, gam, r["xnext"], r["vnext"], h, r["xr"], r["vr"], fext, x2, v3))
